@@ -143,7 +143,7 @@ share: {self.value}"""
         all_bits |= self.member_index
         all_bits <<= 4
         all_bits |= self.member_threshold - 1
-        padding = 10 - self.share_bit_length % 10
+        padding = -self.share_bit_length % 10
         all_bits <<= padding + self.share_bit_length
         all_bits |= self.value
         num_words = 4 + (padding + self.share_bit_length) // 10
